@@ -328,6 +328,11 @@ def judge(role, prev, o, history_ctx):
     # G3: nothing handed to the application that was received while not Open
     if o["delivered"] and ps not in OPENS:
         errs.append((sig(f"G3:delivered-while-{ps}"), f"G3: {o['delivered']} handed to the application in state {ps}"))
+    # G5: base-protocol messages are consumed by the state machine, never handed to the application
+    base_delivered = [d for d in o["delivered"] if d[0] in (257, 280, 282)]
+    if base_delivered:
+        errs.append((sig(f"G5:base-message-delivered:{kind if what is None else what}"),
+                     f"G5: base-protocol message(s) {base_delivered} handed to the application after {ev} in {ps}"))
     # G4: Open only through R4 / R8
     if ns in OPENS and ps not in OPENS:
         ok = (role == "client" and ps == "Wait-I-CEA" and what in ("cea-echo", "cea-echo-2ip")) or \
